@@ -41,6 +41,7 @@ type UnitResult struct {
 	Inlined     []string
 	Observers   []string
 	Havocked    []string
+	Skipped     []string
 	Paths       int
 	Assumed     bool
 	ElapsedMs   int64
@@ -100,6 +101,7 @@ func (w *World) VerifyFunc(fi *FuncInfo, c *Contract, opts VerifyOpts) (res *Uni
 		res.Inlined = sortedNames(ex.inlined)
 		res.Observers = sortedNames(ex.observers)
 		res.Havocked = sortedNames(ex.havocked)
+		res.Skipped = sortedNames(ex.skipped)
 	}()
 	if c != nil && c.Assume {
 		res.Assumed = true
